@@ -61,7 +61,8 @@ def entity_xml(e, src, facts, keys, valid_until=None, evil=False):
 
 def when(v):
     now = spc.now()
-    return {'absent': None, 'future': env.ts(now + 86400), 'past': env.ts(now - 3600)}[v]
+    return {'absent': None, 'future': env.ts(now + 86400), 'past': env.ts(now - 3600),
+            'pastOffset': env.ts(now - 3600, 'offPlus')}[v]
 
 
 def source_a(case):
@@ -244,7 +245,7 @@ def main():
         for p in problems:
             chk.violation({'kind': 'roundtrip', 'what': p}, 'configuration -> metadata -> store round trip differs: %s' % p, {'problem': p})
     chk.cov['exhaustive'] = True
-    chk.cov['rule'] = ('all 288 scenarios of MdStore.tla (validUntil of document and entity absent/future/past x signature none/valid/'
+    chk.cov['rule'] = ('all scenarios of MdStore.tla (validUntil of document and entity absent / future / past / past written with a numeric offset x signature none/valid/'
                       'invalid/wrapped x verification certificate configured x duplicate declaration in a second source x load order), '
                       'each with every query of the universe (5 services x 3 bindings, certs x 4 roles x 2 uses, entity categories; 4 '
                       'entities incl. an unknown one); distinct = distinct (scenario, query)')
